@@ -3,6 +3,7 @@
 package grpcgcp
 
 import (
+	"google.golang.org/grpc/resolver"
 	"time"
 
 	"google.golang.org/grpc/balancer"
@@ -147,4 +148,96 @@ func VerifH_window() {
 	verifReach("after")
 	verifAssert(got == want, "C07: detection window is not unresponsive_detection_ms x 2^k")
 	verifObserve("window", uint64(got))
+}
+
+// Pattern P3 for C07/C03 "no refresh of the channel is already in progress": completions run
+// concurrently with each other and with balancer callbacks.  refresh() tests ref.refreshing, then
+// takes gb.mu: at that acquisition anything another goroutine does under the lock may already
+// have happened (arbitrary Inv_gb state, same objects) - in particular another completion on the
+// same channel may have started the refresh.
+var (
+	verifDoneArmed         bool
+	verifDoneHooked        bool
+	verifDoneW             *verifWorld
+	verifDoneOn            *subConnRef
+	verifDoneRefAtLock     bool
+	verifDoneCreatedAtLock int
+	verifDoneBudget        int // interference points left (one per acquisition of gb.mu)
+)
+
+func verifOnLockDone() {
+	if verifDoneBudget == 0 {
+		return
+	}
+	verifDoneBudget--
+	verifDoneHooked = true
+	w := verifDoneW
+	if verifBool("resolverUpdate@") {
+		// a resolver update arrived meanwhile: every connection the balancer knows at that moment
+		// got the new list (Inv_gb, assumed by fill)
+		gb := w.gb
+		na := verifInt("gbaddrs@")
+		verifAssume(na >= 0 && na <= 2)
+		gb.addrs = []resolver.Address{{Addr: verifChoose("gbaddr0@", "x", "y", "z")}, {Addr: "w"}}[:na]
+	}
+	w.fill("@")
+	verifDoneRefAtLock = verifDoneOn.refreshing
+	verifDoneCreatedAtLock = w.cc.created
+}
+
+func VerifH_donep3() {
+	w := verifMkWorld()
+	cc := w.cc
+	c := w.mkCall()
+	verifAssume(!c.hasCfg) // a plain call: the only lock the completion can take is the one in refresh()
+	c.ctx.dl, c.ctx.hasDl = verifTime("deadline"), verifBool("hasDeadline")
+	verifAssume(!c.ctx.dl.Before(time.Unix(0, 0)))
+	pre0 := w.snap()
+	res, err := c.p.Pick(balancer.PickInfo{FullMethodName: c.method, Ctx: c.ctx})
+	verifAssume(err == nil)
+	post0 := w.snap()
+	placed, _ := w.placedOn(pre0, post0)
+	on := w.refs[verifCase("on")]
+	verifAssume(placed == on)
+	done := verifNarrow(res.Done)
+	started := verifClock
+	verifClock = verifTime("now2")
+	verifAssume(!verifClock.Before(started) && verifClock.Before(time.Unix(0, 1<<61)))
+	w.fill("@")
+	verifAssume(on.streamsCnt >= 1)
+	verifAssume(on.refreshCnt < 32 && on.deCalls < 1<<31)
+	kind := verifInt("errKind")
+	verifAssume(kind >= 0 && kind <= 3)
+	derr := verifMkErr(kind)
+
+	verifDoneW, verifDoneOn, verifDoneHooked, verifDoneRefAtLock, verifDoneCreatedAtLock = w, on, false, false, 0
+	verifDoneBudget = 2
+	verifResetLocks()
+	verifLockHookFrom(1)
+	verifDoneArmed = true
+	done(balancer.DoneInfo{Err: derr})
+	verifDoneArmed = false
+	verifLockHookFrom(2)
+	verifReach("after done")
+	if verifDoneHooked {
+		verifReach("interference at the lock of refresh")
+		verifAssert(verifImplies(verifDoneRefAtLock, cc.created == verifDoneCreatedAtLock), "C07,C03: a completion started a second refresh of a channel whose refresh another goroutine had started before this one got the lock")
+		verifAssert(cc.created <= verifDoneCreatedAtLock+1, "C07,C03: completion created more than one connection")
+	}
+	verifAssert(verifLocksFree(), "C06: completion callback left a lock held")
+	// whatever happened meanwhile (e.g. a resolver update between two critical sections of the
+	// refresh): connections the balancer knows use the most recently resolved address list
+	gb := w.gb
+	for i := 0; i < vM+vF; i++ {
+		var sc *verifSC
+		if i < vM {
+			sc = w.scs[i]
+		} else {
+			sc = cc.fresh[i-vM]
+		}
+		_, inPool := gb.scRefs[w.conn(i)]
+		_, isRepl := gb.refreshingScRefs[w.conn(i)]
+		verifAssert(verifImplies(inPool || isRepl, sc.addrTag == verifAddrTag(gb.addrs)), "C20: a connection of the pool (or the replacement of a refresh in flight) does not use the most recently resolved address list")
+	}
+	verifObserve("created", uint64(cc.created))
 }
